@@ -144,7 +144,7 @@ Section C93.
     - intros a Ha. apply N.eqb_eq in H2. change 0%N with (nn 0) in H2. apply nn_inj in H2.
       pose proof (proj1 (cnt_zero_forall parked (asyncs s')) H2 a Ha) as Hp. unfold parked in Hp. destruct (as_pc a); [discriminate | reflexivity].
     - intros a Ha. specialize (H3 a Ha). unfold racode2 in H3. cbn [fst] in H3. destruct (ra_pc a); [discriminate | reflexivity].
-    - intros c Hcn. specialize (H4 c Hcn). unfold ccode6 in H4. destruct (cpcv c); destruct (ww_firepc c) as [[|]|]; try reflexivity; discriminate.
+    - intros c Hcn. specialize (H4 c Hcn). unfold ccode6 in H4. destruct (cpcv c); destruct (ww_firepc c) as [[|]|]; try reflexivity; destruct (ac_wpark c); discriminate.
   Qed.
 
   (* 9.3: at rest, with a context that its owner has not cancelled and a reference: a resolver call is in progress, or the
